@@ -9,9 +9,13 @@
 (* comparator (munge.py renames them to ranks).                            *)
 (***************************************************************************)
 EXTENDS Quantiles, TraceCommon
-VARIABLES blob,
+CONSTANT CheckDesign    \* TRUE only in the tier-B configuration (TraceQuantilesB.cfg): keep a design-level shadow state per sketch,
+                        \* advanced by the design models' own operators (spec/KllMech.tla, ...) with the CODE's constants and the
+                        \* logged coins, and compare it with the observed levels; a rejection there is MODEL-DRIFT, not a violation
+VARIABLES sh,           \* tier B: id -> shadow design state ([sup |-> FALSE] where no design model applies)
+          blob,
           ck      \* ghost per object: smallest k that contributed compacted data (Quantiles!CkUpdate / CkMerge)
-tvars == <<obj, l, blob, ck>>
+tvars == <<obj, l, blob, ck, sh>>
 
 PairsOf(e) == IF Has(e, "pairs") THEN e.pairs ELSE NoObs
 Post(e) == [k |-> e.k, n |-> e.n, minI |-> e.minD, maxI |-> e.maxD, est |-> e.est, nret |-> e.nret,
@@ -64,33 +68,94 @@ TwinOK(e, o) == (Has(e, "twinOf") /\ o.fam # "req" /\ e.twinOf \in DOMAIN obj) =
   /\ Chk("C09:twin-equal-scalars", o.n = t.n /\ o.k = t.k /\ o.est = t.est /\ o.nret = t.nret /\ o.minI = t.minI /\ o.maxI = t.maxI)
   /\ Chk("C09:twin-equal-pairs", (o.pairs # NoObs /\ t.pairs # NoObs) => o.pairs = t.pairs)
 
+-----------------------------------------------------------------------------
+(* tier B: design-level shadow state *)
+KM == INSTANCE KllMech WITH M <- 8, HalveUpParityFlip <- 0       \* kll_constants::DEFAULT_M = 8
+CM == INSTANCE ClassicQMech WITH ZipIgnoresCoin <- 0
+RM == INSTANCE ReqMech WITH InitSec <- 3, MergeCoin <- "adopt"      \* req_constants::INIT_NUM_SECTIONS = 3
+NoSh == [sup |-> FALSE]
+ShOf(i) == IF i \in DOMAIN sh THEN sh[i] ELSE NoSh
+ShSet(f) == IF CheckDesign THEN f ELSE sh
+Coins(e) == IF Has(e, "coins") THEN e.coins ELSE <<>>
+ShNew(e) == CASE e.fam = "kll" -> [sup |-> TRUE, fam |-> "kll", k |-> e.k, minK |-> e.k, lv |-> << <<>> >>]
+              [] e.fam = "classic" -> [sup |-> TRUE, fam |-> "classic", k |-> e.k, n |-> 0, bb |-> <<>>, lv |-> <<>>, bp |-> 0]
+              [] e.fam = "req" /\ Has(e, "secs") -> [sup |-> TRUE, fam |-> "req", k |-> e.k, hra |-> e.hra, secs |-> e.secs, n |-> 0,
+                                                    lv |-> <<RM!CNew(0, e.secs)>>]
+              [] OTHER -> NoSh
+\* [d, used]: the design model's update / merge with the logged coins
+ShUpdate(d, v, cs) ==
+  IF ~d.sup THEN [d |-> d, used |-> Len(cs)]
+  ELSE IF d.fam = "kll" THEN LET r == KM!Insert(d.k, d.lv, v, KM!CoinAt(cs, 1)) IN [d |-> [d EXCEPT !.lv = r.lv], used |-> r.used]
+  ELSE IF d.fam = "req" THEN LET r == RM!UpdLv(d.lv, d.hra, d.secs, v, cs) IN [d |-> [d EXCEPT !.lv = r.lv, !.n = @ + 1], used |-> r.used]
+  ELSE LET r == CM!Upd(d, v, cs, 0) IN [d |-> r.s, used |-> r.used]
+ShMerge(d, o, cs) ==
+  IF ~d.sup \/ ~o.sup THEN [d |-> NoSh, used |-> Len(cs)]
+  ELSE IF d.fam = "kll" THEN
+       LET r == KM!MergeLevels(d.k, d.lv, o.lv, cs) IN
+       [d |-> [d EXCEPT !.lv = r.lv, !.minK = IF Len(o.lv) > 1 THEN Min2(@, o.minK) ELSE @], used |-> r.used]
+  ELSE IF o.n = 0 THEN [d |-> d, used |-> 0]
+  ELSE IF d.fam = "req" THEN LET r == RM!MergeLv(d.lv, o.lv, d.hra, d.secs, cs) IN [d |-> [d EXCEPT !.lv = r.lv, !.n = @ + o.n], used |-> r.used]
+  ELSE IF CM!DownSamples(d, o) THEN [d |-> NoSh, used |-> Len(cs)]     \* the down-sampling merge is not modelled: no shadow from here on
+  ELSE LET r == CM!MergeCore(d, o, cs) IN [d |-> r.s, used |-> r.used]
+\* observers that build the sorted view sort level 0 / the base buffer in place
+ShSorted(d) == IF ~d.sup \/ d.fam = "req" THEN d ELSE IF d.fam = "kll" THEN [d EXCEPT !.lv[1] = KM!SortAsc(@)] ELSE [d EXCEPT !.bb = CM!SortAsc(@)]
+\* serialize() of the classic sketch sorts its base buffer before writing it
+ShSer(d) == IF d.sup /\ d.fam = "classic" THEN ShSorted(d) ELSE d
+RECURSIVE Trim(_)
+Trim(q) == IF q # <<>> /\ q[Len(q)] = <<>> THEN Trim(SubSeq(q, 1, Len(q) - 1)) ELSE q
+\* the observed levels (iteration order, level by level: index = log2(weight) + 1) against the shadow
+ShLevels(d) == CASE d.fam = "kll" -> d.lv
+                 [] d.fam = "classic" -> Trim(<<d.bb>> \o d.lv)
+                 [] OTHER -> Trim([h \in 1..Len(d.lv) |-> d.lv[h].items])
+\* REQ: level 0 is iterated in buffer order; the model keeps it sorted (every use sorts it first)
+ObsLevels(e, d) == IF d.fam = "req" /\ Len(e.lv) > 0 THEN [e.lv EXCEPT ![1] = SortSeq(@, LAMBDA x, y : x < y)] ELSE e.lv
+\* a restored REQ sketch draws one fresh coin per compactor
+ShRestored(d, cs) == IF d.sup /\ d.fam = "req" THEN [d EXCEPT !.lv = [h \in 1..Len(d.lv) |-> [d.lv[h] EXCEPT !.coin = IF h <= Len(cs) THEN cs[h] ELSE @]]] ELSE d
+LevelsOK(e, d) == (CheckDesign /\ d.sup /\ Has(e, "lv")) =>
+  /\ Chk("B:num-levels", IF d.fam = "kll" THEN Len(d.lv) = e.nl ELSE Len(ShLevels(d)) = Len(e.lv))
+  /\ Chk("B:level-sizes", [h \in 1..Len(ShLevels(d)) |-> Len(ShLevels(d)[h])] = [h \in 1..Len(e.lv) |-> Len(e.lv[h])])
+  /\ Chk("B:levels", ShLevels(d) = ObsLevels(e, d))
+  /\ Chk("B:k", IF d.fam = "kll" THEN (e.est => d.minK = e.pk) ELSE d.k = e.k /\ d.n = e.n)
+  /\ (Has(e, "rq") =>
+       /\ Chk("B:req-state", [h \in 1..Len(d.lv) |-> d.lv[h].state] = [h \in 1..Len(e.rq) |-> e.rq[h][1]])
+       /\ Chk("B:section-size", [h \in 1..Len(d.lv) |-> <<d.lv[h].nsec, RM!SSize(d.lv[h])>>] = [h \in 1..Len(e.rq) |-> <<e.rq[h][2], e.rq[h][3]>>]))
+CoinsOK(e, used) == CheckDesign => Chk("B:coins-consumed", used = Len(Coins(e)))
+
 \* the published error comes from the published k, and that k covers every contributor of compacted data
 Published(e, fam, c) ==
   /\ Chk("published-error-is-that-of-published-k", fam # "req" => e.epsD = e.epsPkD)
   /\ Chk("published-k<=smallest-contributing-k", PublishedKOK(fam, e.pk, c, e.est))
 CkOf(i) == IF i \in DOMAIN ck THEN ck[i] ELSE Big
-TBegin == IsEvent("Begin") /\ obj' = <<>> /\ blob' = <<>> /\ ck' = <<>>
+TBegin == IsEvent("Begin") /\ obj' = <<>> /\ blob' = <<>> /\ ck' = <<>> /\ sh' = <<>>
 TNew == IsEvent("New") /\ LET e == Log[l]  o == WithObs(Fresh(e.fam, e.k), Post(e)) IN
           /\ Named(o, e) /\ New(e.id, e.fam, Post(e)) /\ ck' = (e.id :> Big) @@ ck /\ UNCHANGED blob
+          /\ sh' = ShSet((e.id :> ShNew(e)) @@ sh)
 TUpdate == IsEvent("Update") /\ LET e == Log[l]  o == WithObs(AfterUpdate(obj[e.id], e.v), Post(e)) IN
           /\ Named(o, e) /\ Update(e.id, e.v, Post(e)) /\ TwinOK(e, o) /\ UNCHANGED blob
           /\ LET c == CkUpdate(CkOf(e.id), e.est, e.k) IN Published(e, o.fam, c) /\ ck' = (e.id :> c) @@ ck
+          /\ LET r == ShUpdate(ShOf(e.id), e.v, Coins(e)) IN CoinsOK(e, r.used) /\ LevelsOK(e, r.d) /\ sh' = ShSet((e.id :> r.d) @@ sh)
 TUpdateNaN == IsEvent("UpdateNaN") /\ LET e == Log[l]  o == WithObs(obj[e.id], Post(e)) IN
           \* NaN is rejected: n, extremes and retained count as before
           /\ Chk("nan-rejected", e.n = obj[e.id].n /\ e.nret = obj[e.id].nret)
-          /\ Named(o, e) /\ Observe(e.id, Post(e)) /\ UNCHANGED <<blob, ck>>
+          /\ Named(o, e) /\ Observe(e.id, Post(e)) /\ UNCHANGED <<blob, ck, sh>>
 TMerge == IsEvent("Merge") /\ LET e == Log[l]  o == WithObs(AfterMerge(obj[e.dst], obj[e.src]), Post(e)) IN
           /\ Named(o, e) /\ Merge(e.dst, e.src, e.rv, Post(e)) /\ TwinOK(e, o) /\ UNCHANGED blob
           /\ LET c == CkMerge(CkOf(e.dst), CkOf(e.src), e.est, e.k) IN Published(e, o.fam, c) /\ ck' = (e.dst :> c) @@ ck
+          /\ LET r == ShMerge(ShOf(e.dst), ShOf(e.src), Coins(e)) IN CoinsOK(e, r.used) /\ LevelsOK(e, r.d) /\ sh' = ShSet((e.dst :> r.d) @@ sh)
 TObs == IsEvent("Obs") /\ LET e == Log[l]  o == WithObs(obj[e.id], Post(e)) IN
           /\ Named(o, e) /\ Projection(e, o) /\ Observe(e.id, Post(e)) /\ TwinOK(e, o) /\ UNCHANGED <<blob, ck>>
           /\ Published(e, o.fam, CkOf(e.id))
+          \* the levels are iterated before the sorted view is built, which then sorts level 0 in place
+          /\ LevelsOK(e, ShOf(e.id)) /\ sh' = ShSet((e.id :> ShSorted(ShOf(e.id))) @@ sh)
 TCopy == IsEvent("Copy") /\ LET e == Log[l] IN Copy(e.src, e.dst) /\ ck' = (e.dst :> CkOf(e.src)) @@ ck /\ UNCHANGED blob
-TDestroy == IsEvent("Destroy") /\ LET e == Log[l] IN Destroy(e.id) /\ UNCHANGED <<blob, ck>>
+          /\ sh' = ShSet((e.dst :> ShOf(e.src)) @@ sh)
+TDestroy == IsEvent("Destroy") /\ LET e == Log[l] IN Destroy(e.id) /\ UNCHANGED <<blob, ck, sh>>
 \* invalid queries must throw: any query of an empty sketch, normalized rank outside [0,1], NaN / unsorted / repeated split points
 TInvalid == IsEvent("Invalid") /\ LET e == Log[l] IN
           /\ Chk("harness:empty-query-on-empty-sketch", e.onempty => obj[e.id].n = 0)
           /\ Chk("invalid-query-rejected", e.threw)
+          \* get_CDF / get_PMF build the sorted view (sorting level 0) before they inspect the split points
+          /\ sh' = ShSet(IF ~e.onempty /\ e.sorts THEN (e.id :> ShSorted(ShOf(e.id))) @@ sh ELSE sh)
           /\ UNCHANGED <<obj, blob, ck>>
 TSer == IsEvent("Ser") /\ LET e == Log[l]  o == WithObs(obj[e.id], Post(e)) IN
           /\ Named(o, e) /\ Observe(e.id, Post(e))
@@ -100,7 +165,9 @@ TSer == IsEvent("Ser") /\ LET e == Log[l]  o == WithObs(obj[e.id], Post(e)) IN
           /\ TwinOK(e, o)
           /\ Chk("C09:twin-equal-image", (Has(e, "twinBlob") /\ o.fam # "req") => e.img = blob[e.twinBlob].img)
           /\ Published(e, o.fam, CkOf(e.id))
-          /\ blob' = (e.blob :> [val |-> o, img |-> e.img, size |-> e.size, ck |-> CkOf(e.id)]) @@ blob /\ UNCHANGED ck
+          /\ LevelsOK(e, ShSer(ShOf(e.id)))
+          /\ blob' = (e.blob :> [val |-> o, img |-> e.img, size |-> e.size, ck |-> CkOf(e.id), sh |-> ShSer(ShOf(e.id))]) @@ blob
+          /\ sh' = ShSet((e.id :> ShSer(ShOf(e.id))) @@ sh) /\ UNCHANGED ck
 TDeser == IsEvent("Deser") /\ LET e == Log[l]  b == blob[e.blob]  v == b.val  o == WithObs(v, Post(e)) IN
           /\ Chk("C09:restored-scalars", e.n = v.n /\ e.k = v.k /\ e.est = v.est /\ e.nret = v.nret /\ (v.n > 0 => e.minD = v.minI /\ e.maxD = v.maxI))
           /\ Chk("C09:restored-pairs", e.pairs = v.pairs)
@@ -109,9 +176,10 @@ TDeser == IsEvent("Deser") /\ LET e == Log[l]  b == blob[e.blob]  v == b.val  o 
           /\ Chk("C09:reserialize", e.reimg = b.img)
           /\ Named(o, e)
           /\ Published(e, o.fam, b.ck)
-          /\ obj' = (e.dst :> o) @@ obj /\ ck' = (e.dst :> b.ck) @@ ck /\ UNCHANGED blob
+          /\ LevelsOK(e, b.sh)
+          /\ obj' = (e.dst :> o) @@ obj /\ ck' = (e.dst :> b.ck) @@ ck /\ sh' = ShSet((e.dst :> ShRestored(b.sh, Coins(e))) @@ sh) /\ UNCHANGED blob
 
-TInit == obj = <<>> /\ l = 1 /\ blob = <<>> /\ ck = <<>>
+TInit == obj = <<>> /\ l = 1 /\ blob = <<>> /\ ck = <<>> /\ sh = <<>>
 TNext == TBegin \/ TNew \/ TUpdate \/ TUpdateNaN \/ TMerge \/ TObs \/ TCopy \/ TDestroy \/ TInvalid \/ TSer \/ TDeser
 TSpec == TInit /\ [][TNext]_tvars
 \* cheap per-state invariant (the clauses are evaluated by name at every event)
